@@ -162,6 +162,14 @@ pub fn structured_seq(r: &mut Rng, maxlen: u64, edge: u64, max: u64, pick: &mut 
                 let s = if r.chance(1, 6) { max - (n - 1) } else { pick(r).min(max - (n - 1)) };
                 v.extend(s..=s + (n - 1));
             }
+            3 if r.chance(1, 2) => {
+                // the top of the type immediately followed by its bottom (consecutive modulo 2^n, not consecutive)
+                v.extend_from_slice(&[max - 1, max, 0, 1]);
+                if r.chance(1, 2) {
+                    v.reverse();
+                }
+                v.truncate(maxlen as usize);
+            }
             3 => {
                 // immediate repeats and a step back
                 let p = pick(r);
